@@ -291,11 +291,11 @@ class BridgeSys:
                 await self.bridge.stop()
             except Exception:
                 pass
-            # defensive: close anything a broken start()/stop() left behind so ports are free for the next run
-            for tr in list(getattr(self.bridge, "_transports", {}).values()):
+            # defensive: close anything a broken start()/stop() left behind so ports are free for the next run.  No
+            # private name is assumed: whatever the bridge object holds that looks like an asyncio transport is closed.
+            for tr in udptx.transports_held_by(self.bridge):
                 try:
-                    if tr is not None:
-                        tr.close()
+                    tr.close()
                 except Exception:
                     pass
             self.rig.unobserve()
